@@ -360,6 +360,13 @@ namespace hv
     void apply_op(const Out<Sch> &out, const std::string &op, DateTime now)
     {
         if (op.empty()) return;
+        if (op == "I")
+        {
+            // explicit invalidation of the WHOLE endpoint (a container cascades into its children)
+            auto m = out_base(out).begin_mutation(now);
+            (void)m.invalidate();
+            return;
+        }
         if constexpr (std::is_same_v<Sch, TS<Int>>)
         {
             if (op[0] == '=') out.set(Int{std::atoll(op.c_str() + 1)});
